@@ -78,7 +78,7 @@ def gen(ctx):
         yield Case("RT", spec_ms(rng, n), tags=("count",))
     for _ in range(400 if ctx.thorough else 60):
         n = rng.randrange(0, 256)
-        nf = rng.choice([0, 1, n + 1, max(0, n - 1), 255])
+        nf = rng.choice([0, 1, min(n + 1, 255), max(0, n - 1), 255])   # the count field is a u8
         yield Case("RT", spec_ms(rng, n, nf), tags=("count-mismatch",))
     for _ in range(100000 if ctx.thorough else 4000):
         k = rng.randrange(1, 9) if rng.random() < 0.6 else 1
